@@ -80,7 +80,36 @@ def gen_mj():
     return out
 
 
-GENERATORS = {"MjGen.v": gen_mj}
+def gen_mj_sort():
+    """Structural fingerprint of recursive_bisection::axis_sort, the only sort MultiJagged relies on: the body
+    must be exactly one `par_sort_unstable_by` over the permutation whose comparator orders by
+    points[i][current_coord] with `<` (Less, else Greater).  Anything else (a fast path, another sort, another
+    key) fails closed: the sort oracle of the model (a permutation sorted by the coordinate) is then no longer
+    known to describe the code."""
+    rel = "src/algorithms/recursive_bisection.rs"
+    src = read(rel)
+    m = re.search(r"pub\s+fn\s+axis_sort\s*<\s*const\s+D\s*:\s*usize\s*>\s*\(\s*points\s*:\s*&\[PointND<D>\]\s*,\s*"
+                  r"permutation\s*:\s*&mut\s*\[usize\]\s*,\s*current_coord\s*:\s*usize\s*,?\s*\)\s*\{", src)
+    if not m:
+        raise Fail("signature `pub fn axis_sort<const D: usize>(points: &[PointND<D>], permutation: &mut [usize], current_coord: usize)` not found")
+    body = fn_body(src, "axis_sort")
+    if body is None:
+        raise Fail("body of axis_sort not found")
+    text = re.sub(r"//[^\n]*", "", body)          # comments
+    text = re.sub(r"\s+", "", text)               # all white space
+    expected = ("{permutation.par_sort_unstable_by(|i1,i2|{"
+                "ifpoints[*i1][current_coord]<points[*i2][current_coord]{cmp::Ordering::Less}else{cmp::Ordering::Greater}"
+                "})}")
+    if text != expected:
+        raise Fail("axis_sort is not exactly one par_sort_unstable_by on points[i][current_coord] (body: %s...)" % text[:120])
+    if len(re.findall(r"\baxis_sort\s*\(", read("src/algorithms/multi_jagged.rs"))) != 1:
+        raise Fail("multi_jagged.rs is expected to call axis_sort exactly once")
+    out = HEADER.format(src=rel)
+    out += "Definition mj_axis_sort_is_one_unstable_sort_by_coordinate : bool := true.\n"
+    return out
+
+
+GENERATORS = {"MjGen.v": gen_mj, "MjSortGen.v": gen_mj_sort}
 
 
 _streams = {0: "in contract", 1: "zero weights", 2: "more parts than points", 3: "outside the contract (0 parts / 0 iterations)"}
@@ -88,7 +117,8 @@ _outcomes = {0: "Ok", 1: "panic", 2: "hang", 3: "error"}
 _class_names = {}
 for _s, _sn in _streams.items():
     for _o, _on in _outcomes.items():
-        for _e, _en in ((0, "exact-arithmetic model agrees"), (1, "exact-arithmetic model differs")):
+        for _e, _en in ((0, "exact-arithmetic model agrees"), (1, "exact-arithmetic model differs"),
+                        (2, "large input: judged by the checkers only, model not re-run")):
             _class_names[_s * 100 + _o * 10 + _e] = "%s / %s / %s" % (_sn, _on, _en)
 
 PROP = dict(
@@ -103,7 +133,7 @@ PROP = dict(
          "zero weights / one heavy element (the inputs that panicked before 28ccbdd), tiny weights z*2^-70 (the inputs that broke the balance bound before 70b7d46), subnormal weights z*2^-1074 with 10..45-bit z (1e-320..1e-310), alone or next to 1-3 normal weights (a first-level slab then has a subnormal total), part_count > n, max_iter = 0 and "
          "part_count = 0 (outside the contract); points 2-D/3-D uniform, clustered, collinear, coincident, duplicate "
          "coordinates, lattice, one outlier; weights uniform, random, skewed, one heavy, few heavy, large; max_iter 1..4; "
-         "pools 1,2,4,8,16 (each case also run under one thread); concurrency stream (about 1 case in 25): the call runs 6 times in a row while one or two other MultiJagged::partition calls on other inputs do the same from their own std threads (own rayon pool or the global one), and the first output that is not the partition of the solo run (or else the first) is the one judged; distinct = distinct (D, coordinate bits, weights, "
+         "pools 1,2,4,8,16 (each case also run under one thread); large structured inputs (1 % of the quick cases, 0.4 % of the thorough ones: grids numbered row by row with rows of 1024/2048/3072 points, column-major grids, point sets sorted inside every block of 1024 entries with shuffled blocks; 2048..8192 points; judged by the checkers only); concurrency stream (about 1 case in 25): the call runs 6 times in a row while one or two other MultiJagged::partition calls on other inputs do the same from their own std threads (own rayon pool or the global one), and the first output that is not the partition of the solo run (or else the first) is the one judged; distinct = distinct (D, coordinate bits, weights, "
          "part_count, max_iter, pool); non-trivial = positive weights, at least 4 points, at least 2 parts, max_iter >= 1",
     class_names=_class_names,
     trusted_base=[
